@@ -2,6 +2,7 @@ import Driver.Store
 import Driver.Time
 import Driver.Codec13
 import Driver.Validator
+import Driver.Addr
 
 def main (args : List String) : IO UInt32 := do
   match args with
@@ -9,6 +10,7 @@ def main (args : List String) : IO UInt32 := do
   | ["time"] => TimeDrv.main; return 0
   | ["codec13"] => Codec13Drv.main; return 0
   | ["validator"] => ValidatorDrv.main; return 0
+  | ["addr"] => AddrDrv.main; return 0
   | _ =>
     IO.eprintln "usage: driver <family>   (lines on stdin)"
     return 2
